@@ -65,7 +65,53 @@ def lit(ty, v):
 
 
 def ref(o):
+    if o.get("agg"):
+        return f"{o['agg']['grp']}.{o['agg']['path']}"   # member of a record (possibly of a nested record)
     return f"self.{o['name']}" if o["cls"] == "port" else o["name"]
+
+
+def agg_groups(d):
+    """{group name: [object index]} of the objects that are members of one aggregate (std.Record) object"""
+    out = {}
+    for i, o in enumerate(d["objs"]):
+        if o.get("agg"):
+            out.setdefault(o["agg"]["grp"], []).append(i)
+    return out
+
+
+def render_records(d):
+    """class definitions of the records: top-level fields and one nested record `n` per group"""
+    L = []
+    for g, idxs in agg_groups(d).items():
+        top = [(d["objs"][i]["agg"]["path"], d["objs"][i]) for i in idxs if "." not in d["objs"][i]["agg"]["path"]]
+        inner = [(d["objs"][i]["agg"]["path"].split(".")[1], d["objs"][i]) for i in idxs if "." in d["objs"][i]["agg"]["path"]]
+        if inner:
+            L.append(f"class Inner_{g}(std.Record):")
+            L += [f"    {f}: {TY[o['ty']]['py']}" for f, o in inner]
+            L.append("")
+        L.append(f"class Rec_{g}(std.Record):")
+        L += [f"    {f}: {TY[o['ty']]['py']}" for f, o in top]
+        if inner:
+            L.append(f"    n: Inner_{g}")
+        L.append("")
+    return L
+
+
+def render_agg_decls(d):
+    L = []
+    for g, idxs in agg_groups(d).items():
+        objs = [d["objs"][i] for i in idxs]
+        o0 = objs[0]
+        q = "Signal" if o0["cls"] == "sig" else "Variable"
+        top = [f"{o['agg']['path']}={lit(o['ty'], o['default'])}" for o in objs if "." not in o["agg"]["path"]]
+        inner = [f"{o['agg']['path'].split('.')[1]}={lit(o['ty'], o['default'])}" for o in objs if "." in o["agg"]["path"]]
+        if inner:
+            top.append(f"n=Inner_{g}({', '.join(inner)})")
+        ctor = f"std.Noreset{q}[Rec_{g}]" if o0["noreset"] else f"{q}[Rec_{g}]"
+        L.append(f"        {g} = {ctor}({', '.join(top)})")
+        for o in objs:
+            L.append(f"        {ref(o)}.set_name(\"{o['name']}\")")
+    return L
 
 
 def r_expr(d, e):
@@ -152,8 +198,9 @@ def ctl_expr(d, name):
 
 def render(d):
     """descriptor -> source text of a real design file"""
-    L = ["import cohdl", "from cohdl import Bit, Port, Unsigned, BitVector, Variable, Signal, Array", "from cohdl import std", "",
-         "class E(cohdl.Entity):", "    clk = Port.input(Bit)", "    rst = Port.input(Bit)", "    en = Port.input(Bit)",
+    L = ["from __future__ import annotations", "import cohdl", "from cohdl import Bit, Port, Unsigned, BitVector, Variable, Signal, Array", "from cohdl import std", ""]
+    L += render_records(d)
+    L += ["class E(cohdl.Entity):", "    clk = Port.input(Bit)", "    rst = Port.input(Bit)", "    en = Port.input(Bit)",
          "    a = Port.input(Bit)", "    b = Port.input(Bit)"]
     ctl = d.get("ctl") or {}
     if ctl.get("vec"):
@@ -170,8 +217,9 @@ def render(d):
     if ctl.get("vec") == "sig":
         # the control bits are bits of a LOCAL signal (a copy of the control bus)
         L += [f"        cs = Signal[BitVector[{ctl['w']}]](name=\"cs\")", "        @std.concurrent", "        def drive_cs():", "            cs.next = self.ctrl"]
+    L += render_agg_decls(d)
     for o in d["objs"]:
-        if o["cls"] in ("sig", "var"):
+        if o["cls"] in ("sig", "var") and not o.get("agg"):
             q = "Signal" if o["cls"] == "sig" else "Variable"
             T = TY[o["ty"]]["py"]
             args = ([lit(o["ty"], o["default"])] if o["default"] is not None else []) + [f"name=\"{o['name']}\""]
@@ -418,6 +466,20 @@ class Gen:
             if cls != "var" and has_d and ty in ("bit", "u2") and r.random() < 0.2:
                 o["pushed"] = True
             d["objs"].append(o)
+        # aggregates: some of the signals / variables are members of ONE std.Record object (one member in a nested
+        # record); `noreset` is then a property of the aggregate (std.NoresetSignal[Rec] / std.NoresetVariable[Rec])
+        if r.random() < 0.4:
+            cand = [i for i, o in enumerate(d["objs"]) if o["cls"] in ("sig", "var") and o["ty"] in ("bit", "u2")]
+            r.shuffle(cand)
+            cand = cand[: r.randint(1, 3)]
+            if cand:
+                gcls, gnr = r.choice(["sig", "sig", "var"]), r.random() < 0.7
+                for k, i in enumerate(sorted(cand)):
+                    o = d["objs"][i]
+                    o["cls"], o["noreset"], o["pushed"] = gcls, gnr, False
+                    if o["default"] is None:
+                        o["default"] = r.randrange(TY[o["ty"]]["max"] + 1)
+                    o["agg"] = {"grp": "r0", "path": f"f{k}" if (k == 0 or r.random() < 0.6) else f"n.g{k}"}
         # an object only read by this context (never written, or driven by another context)
         if r.random() < 0.2:
             cand = [i for i, o in enumerate(d["objs"]) if o["cls"] == "sig" and o["ty"] == "bit" and not o["pushed"]]
@@ -576,6 +638,22 @@ def systematic_designs():
                         body = [["set", 2, ["inc", 2]], ["set", 1, ["o", 2]], ["set", 0, ["inc", 0]], ["if", ["b", ["in", "a"]], [["set", 4, ["c", 1]]], []]]
                         out.append({"reset": reset, "low": low, "stepcond": True, "coro": False, "reg": "call", "objs": objs, "body": body,
                                     "onreset": [[[3, ["p", 3]]]], "ext": None, "clean": False, "ctl": ctl, "edge": edge})
+    # aggregate family: noreset / ordinary std.Record objects (signal and variable, one member in a nested record)
+    for reset in ("sync", "async"):
+        for low in (False, True):
+            for gcls in ("sig", "var"):
+                for coro in (False, True):
+                    def mem(name, ty, dflt, grp, path, nr):
+                        return {"name": name, "cls": gcls, "ty": ty, "default": dflt, "noreset": nr, "pushed": False, "agg": {"grp": grp, "path": path}}
+                    objs = [mem("k0", "u2", 1, "r0", "f0", True), mem("k1", "bit", 1, "r0", "f1", True), mem("k2", "u2", 2, "r0", "n.g0", True),
+                            mem("m0", "u2", 3, "r1", "f0", False), mem("m1", "bit", 0, "r1", "n.g0", False),
+                            {"name": "o", "cls": "port", "ty": "u2", "default": 0, "noreset": False, "pushed": False}]
+                    body = [["set", 0, ["inc", 0]], ["set", 1, ["in", "a"]], ["set", 2, ["o", 0]], ["set", 3, ["inc", 3]], ["set", 4, ["in", "b"]]]
+                    if coro:
+                        body.append(["await", ["b", ["in", "a"]]])
+                    body.append(["set", 5, ["o", 2]])
+                    out.append({"reset": reset, "low": low, "stepcond": False, "coro": coro, "reg": "call", "objs": objs, "body": body,
+                                "onreset": [], "ext": None, "clean": False})
     # a clean companion (everything resettable): THE PROPERTY applies to all of its objects
     for reset in ("sync", "async"):
         for low in (False, True):
